@@ -44,8 +44,9 @@ Value& IPHASEExpression::value(Context & ctx) const
   case Type::NO_TYPE:
     break;
   case Type::IMAGINARY:
+    /* a null complex gives a null of the result type */
     if (val.isNull())
-      return val;
+      break;
     v = Value(Numeric(std::arg(IMAGINARY_TO_COMPLEX(*val.imaginary()))));
     break;
   default:
